@@ -55,3 +55,9 @@ META["C05"] = {
     "level_note": "fault scripts are sampled from a grammar, not exhaustively enumerated; bound chosen generously (3x the ideal catch-up)",
     "technique": "runtime monitoring under injected faults: bounded-progress oracle in logical clock steps over real handler networks",
 }
+META["C11"] = {
+    "level": "exploration",
+    "level_text": "for every forced interleaving of store appends with a stream's catch-up scan and its switch to live delivery that the run executed (per back-end, chained/unchained, several start rounds, concurrent and reconnecting streams) the delivered sequence was exactly from..head, in order, equal to the store; deviations are reported with the interleaving that produced them",
+    "level_note": "interleavings are chosen by gating Send and parking at the hand-over hook; Go scheduler nondeterminism inside a phase is sampled, not enumerated",
+    "technique": "runtime monitoring with forced interleavings: gated stream consumer + parking hook, offline sequence oracle against the store",
+}
